@@ -1393,7 +1393,30 @@ class FnEmitter:
                 a = toks[next_sig(toks, q)].start
                 edits.append((a, a, ('', blk, '\n'), 'block'))
             elif where == 'before':
-                edits.append((a, a, ('', blk, '\n'), 'block'))
+                # a statement text that is the unbraced value of a match arm (`Err(msg) => Err(msg),` - rustfmt removes the
+                # braces of `=> { Err(msg) },`): the proof block and the value are put in braces
+                k0 = next((k for k, t in enumerate(toks) if t.start >= a), None)
+                pk = prev_sig(toks, k0) if k0 is not None else None
+                ppk = prev_sig(toks, pk) if pk is not None else None
+                if k0 is not None and toks[pk].text == '>' and toks[ppk].text == '=' and toks[k0].text != '{':
+                    q = k0
+                    depth = 0
+                    while q < bclose:
+                        tq = toks[q]
+                        if tq.kind == 'p' and tq.text in '([{':
+                            depth += 1
+                        elif tq.kind == 'p' and tq.text in ')]}':
+                            if depth == 0:
+                                break
+                            depth -= 1
+                        elif tq.kind == 'p' and tq.text == ',' and depth == 0:
+                            break
+                        q += 1
+                    e_end = toks[prev_sig(toks, q)].end
+                    edits.append((a, a, ('{ ', blk, '\n'), 'block'))
+                    edits.append((e_end, e_end, ' }', None))
+                else:
+                    edits.append((a, a, ('', blk, '\n'), 'block'))
             else:
                 edits.append((b, b, ('\n', blk, ''), 'block2'))
 
